@@ -129,24 +129,28 @@ let () =
             let ms = List.filter_map (fun op -> if String.length op > 1 && op.[0] = 'c'
                                         then Some (nat_of_int (int_of_string (String.sub op 1 (String.length op - 1)))) else None)
                 (split ';' (get "hist")) in
-            let moves = split ',' (List.assoc "moves" ofields) in
+            let moves : bool option list =
+              List.map (fun m -> match m with "1" -> Some true | "0" -> Some false | _ -> None)
+                (split ',' (List.assoc "moves" ofields)) in
             let avx2 = (try List.assoc "avx2" ofields with Not_found -> "1") = "1" in
-            let rec walk before ms moves stale bad =
-              match ms, moves with
-              | m :: ms', mv :: moves' ->
-                let dangling = view_dangling avx2 r before [m] in
-                let stale' = if mv = "1" && dangling then (List.length before) :: stale else stale in
-                let bad' = if mv = "1" && not dangling && int_of_nat r > 0 then (List.length before) :: bad else bad in
-                walk (before @ [m]) ms' moves' stale' bad'
-              | _, _ -> (List.rev stale, List.rev bad) in
-            let (stale, bad) = walk [] ms moves [] [] in
-            let show l = String.concat "," (List.map string_of_int l) in
-            if bad <> [] then
-              Printf.printf "%s DIFF class=alloc buffer moved although the new row count fits the capacity reserved by stripe() (rows=%d, steps %s)\n"
-                id (int_of_nat r) (show bad)
-            else if stale <> [] then
-              Printf.printf "%s PROPFAIL class=alloc stale-view call-sequence=memoryview(StripedSequence);ScoringMatrix.calculate(wider motif);read view -- buffer moved while a view was exported (rows=%d, steps %s)\n"
-                id (int_of_nat r) (show stale)
+            let show l = String.concat "," (List.map (fun n -> string_of_int (int_of_nat n)) l) in
+            if List.length moves <> List.length ms then
+              Printf.printf "%s DIFF class=alloc observation-count\n" id
+            (* the property: extracted check_alloc (C18_check_alloc_sound_complete) *)
+            else if not (check_alloc r moves) then begin
+              (* diagnosis: the steps at which the buffer moved, split by the prediction of the
+                 allocation model (model_moves = view_dangling per step) *)
+              let (expected, unexpected) = alloc_steps O (model_moves avx2 r [] ms) moves in
+              if unexpected <> [] then
+                Printf.printf "%s PROPFAIL class=alloc buffer moved while a view was exported although the new row count fits the capacity reserved by stripe() (rows=%d, steps %s)\n"
+                  id (int_of_nat r) (show unexpected)
+              else
+                Printf.printf "%s PROPFAIL class=alloc stale-view call-sequence=memoryview(StripedSequence);ScoringMatrix.calculate(wider motif);read view -- buffer moved while a view was exported (rows=%d, steps %s)\n"
+                  id (int_of_nat r) (show expected)
+            end
+            else if List.mem None moves then
+              (* not observable (no ctypes in the embedded interpreter): reported, never silently OK *)
+              Printf.printf "%s DIFF class=alloc buffer-address-not-observable\n" id
             else Printf.printf "%s OK\n" id
           end
           else begin
